@@ -1,6 +1,7 @@
 """C01 - METAR-like message is always well-formed and obeys the ICAO layer selection."""
 from harness.common import *
 from harness import msg as M
+from harness import tables, pipeline
 
 SPEC = {
     'technique': 'symbolic execution of CeiloChunk.metar_msg (with the real icao.significant_cloud, wmo.okta2code and '
@@ -34,11 +35,26 @@ def _sizes(kmax, klow):
     return out
 
 
+def h_tail(E, N, C, which):
+    return tables.h_metarize(E, N, C, which, 0, 'C01')
+
+
+def h_run(E, N, C, pvar, chk):
+    return pipeline.h_run(E, N, C, pvar, chk, 'C01')
+
+
 TH_EXTRA = [(3, 'groups', 0, 0), (3, 'groups', 1, 0), (3, 'slices', 0, 0), (3, 'slices', 1, 0), (4, 'layers', 1, 1), (5, 'layers', 0, 1)]
 HARNESSES = [
     H('H-msg', h_msg_c01, quick=_sizes(3, 4), thorough=_sizes(3, 4) + TH_EXTRA, float_model='R',
       cover=['NCD', 'NSC', '1 groups', '2 groups', '3 groups', 'layer exactly at the MSA present'],
       doc='real metar_msg(which) on a chunk whose table has k symbolic rows: grammar, order, 1-3-5 ranks, no zero-okta '
           'row, no row at/above the MSA'),
+    H('H-tail', h_tail, quick=[(1, 1, 'layers'), (2, 2, 'layers'), (2, 1, 'groups')], thorough=[(1, 1, 'layers'), (2, 2, 'layers'), (3, 2, 'layers'), (2, 2, 'slices'), (2, 2, 'groups')],
+      float_model='R', cover=['two hits of one measurement in one set'],
+      assumptions=['statsmodels LOWESS replaced by a stub returning arbitrary finite values'],
+      doc='whole real metarize(which) with an MSA set: table sorted by base, significant = 1-3-5 rule on the table order (whatever the MSA), code = abbreviation + coded base'),
+    H('H-run-msg', h_run, quick=[(1, 1, 2, 0), (2, 1, 2, 0)], thorough=[(1, 1, 2, 0), (2, 1, 2, 0), (2, 2, 2, 0), (2, 1, 0, 0)], float_model='R',
+      cover=['two slices'], assumptions=['utils.check_data_consistency replaced by a stand-in on the accepted table (C15)'],
+      doc='whole chain with a symbolic MSA: each of the three messages against the table it was made from'),
 ]
 get_harness = make_get(HARNESSES)
